@@ -41,7 +41,7 @@ def gen_model(rng, size="small", feats=None):
         "endtime": p(0.35), "maxdur": p(0.3), "maxstops": p(0.3), "maxdist": p(0.3),
         "attrs": p(0.3), "precedence": p(0.4), "no_startloc": p(0.15), "penalties": p(0.6),
         "activation": p(0.5), "nonmetric": p(0.5), "tight": p(0.5), "user": False, "groups": False, "initial": False,
-        "colocated": False, "one_vehicle": False, "fixed_p": 0.3, "dgroups": p(0.3), "objx": p(0.35), "mult": p(0.3), "capobj": False,
+        "colocated": False, "one_vehicle": False, "fixed_p": 0.3, "dgroups": p(0.3), "objx": p(0.35), "mult": p(0.3), "capobj": False, "user_sol": False,
     }
     if feats:
         F.update(feats)
@@ -310,7 +310,12 @@ def gen_model(rng, size="small", feats=None):
             if p(0.6):
                 ve["mult"] = rng.choice([(2, 1), (3, 2), (1, 2), (5, 2), (1, 1)])
         opts["dis_multipliers"] = p(0.08)
-    return {"dgroups": dgroups, "groups": groups, "user": user, "stops": stops, "vehicles": vehicles, "units": units, "arcs": arcs, "dur": dur, "dist": dist,
+    usol = []
+    if F.get("user_sol"):
+        # solution-level user rules (C19, third level): balance of the route sizes / a cap on the stops planned altogether
+        for _ in range(rng.randint(1, 2)):
+            usol.append(("balance", rng.randint(0, 2)) if (nv > 1 and rng.random() < 0.7) else ("maxplanned", rng.randint(1, max(1, n - 1))))
+    return {"usol": usol, "dgroups": dgroups, "groups": groups, "user": user, "stops": stops, "vehicles": vehicles, "units": units, "arcs": arcs, "dur": dur, "dist": dist,
             "nres": nres, "res_mode": res_mode, "opts": opts, "features": {k: bool(v) for k, v in F.items() if k != "fixed_p"}}
 
 
@@ -567,7 +572,8 @@ def opt_str(x):
 def to_lines(m):
     o = m["opts"]
     b = lambda x: "1" if x else "0"  # noqa: E731
-    ls = ["user %s %d %s %s%s" % (u[0], u[1], b(u[2]), b(u[3]), " 1" if len(u) > 4 and u[4] else "") for u in m.get("user", [])] + ["nres %d" % m["nres"],
+    ls = ["user %s %d %s %s%s" % (u[0], u[1], b(u[2]), b(u[3]), " 1" if len(u) > 4 and u[4] else "") for u in m.get("user", [])] + \
+         ["usol %s %d" % (k, v) for k, v in m.get("usol", [])] + ["nres %d" % m["nres"],
           "opt " + " ".join([b(o[k]) for k in ["dis_capacity", "dis_distance", "dis_max_duration", "dis_end_time",
                                                "dis_windows", "dis_max_stops", "dis_max_wait_stop", "dis_max_wait_vehicle",
                                                "dis_attributes", "dis_start_time", "dis_durations"]] +
@@ -660,7 +666,7 @@ def gen_ops(rng, m, nops, mode="unchecked"):
             q = rng.random()
             if m.get("groups") and q < 0.3:
                 ops.append("op munplanr %d" % rng.randrange(1 << 20))
-            elif (m.get("groups") or any(ve.get("initial") for ve in m["vehicles"])) and q < 0.4:
+            elif (m.get("groups") or m.get("usol") or any(ve.get("initial") for ve in m["vehicles"])) and q < 0.4:
                 ops.append("op vunplanr %d" % rng.randrange(1 << 20))
             else:
                 ops.append("op unplanr %d" % rng.randrange(1 << 20))
